@@ -186,7 +186,8 @@ func emptyClassRewrite(pattern string) (string, bool) {
 }
 
 // emptyFlagGroupRewrite models defect C: "(?)" reaches RE2, where it is an empty
-// flag group that matches the empty string.
+// flag group: it is not an operand, so the pattern reads as if "(?)" were not there
+// (a following quantifier applies to whatever precedes it).
 func emptyFlagGroupRewrite(pattern string) (string, bool) {
 	var sb strings.Builder
 	changed := false
@@ -207,7 +208,6 @@ func emptyFlagGroupRewrite(pattern string) (string, bool) {
 			inClass = true
 			sb.WriteByte(c)
 		case c == '(' && strings.HasPrefix(pattern[i:], "(?)"):
-			sb.WriteString("(?:)")
 			changed = true
 			i += 2
 		default:
@@ -321,7 +321,7 @@ func init() {
 	// "[]" / "[^]": observation equals the model's verdict for the pattern with
 	// the "]" after "[" / "[^" read as a class member.
 	register("c10-empty-class", func(m *engine.Mismatch) bool { return firstDev(m) == "A" })
-	// "(?)": observation equals the model's verdict for the pattern with "(?)" read as "(?:)".
+	// "(?)": observation equals the model's verdict for the pattern with "(?)" removed (RE2 flag group, not an operand).
 	register("c10-empty-flag-group", func(m *engine.Mismatch) bool { return firstDev(m) == "C" })
 	// "\c" not followed by a control letter is read as a plain "c": the
 	// observation equals the model's verdict for the pattern with that backslash
